@@ -28,7 +28,7 @@ func fieldKey(owner *types.Named, f *types.Var) string {
 	if owner.Obj().Pkg() != nil {
 		pk = strings.TrimPrefix(owner.Obj().Pkg().Path(), modPath)
 	}
-	return pk + "." + owner.Obj().Name() + "." + f.Name()
+	return pk + "." + owner.Obj().Name() + "." + canon(f)
 }
 
 // ownerOfField returns the named struct type whose field list contains f, given the base value type.
